@@ -1007,7 +1007,7 @@ _C21_SS = {
         {"module": "rueidis", "scenario": "sentinel-follow", "variant": "lifetime", "quick": 2500, "thorough": 100000},
     ],
     "expected_probes": ["replica-served", "batch-with-partial-opt-in", "selector-negative", "selector-past-the-end", "selector-empty-candidate-list",
-                        "selector-chose-replica", "stream-on-replica", "batch-on-replica"],
+                        "selector-chose-replica", "stream-on-replica", "batch-on-replica", "streamed-batch-at-replica"],
     "assumptions": [
         "standalone part: standalone.pick uses the unseedable math/rand/v2 when several replicas are configured without a selector: such plans always carry a selector, and selectors are constant functions",
         "sentinel part: a node that was demoted after the client's ROLE check may receive primary-path commands until the client learns of it; that is counted, not judged",
